@@ -357,8 +357,8 @@ def run_ids(pid, tier, seed, res, only=None):
     n = 200 if tier == "quick" else 3000
     items, where = [], []
     nb = 0
-    for k_ in range(n if only is None else len(only)):
-        prog = kvalue.gen_prog(rng, max_stmts=9 if tier == "quick" else 14, p_sub=0.25, p_flag=0.1) if only is None else only[k_]
+    progs_ = ([json.loads(json.dumps(c_)) for c_ in CORPUS] + [kvalue.gen_prog(rng, max_stmts=9 if tier == "quick" else 14, p_sub=0.25, p_flag=0.1) for _ in range(n)]) if only is None else list(only)
+    for prog in progs_:
         kvalue._K.cur = Keys()
         try:
             d = kvalue.build_tawazi(prog, {})
@@ -367,6 +367,24 @@ def run_ids(pid, tier, seed, res, only=None):
             continue
         seq_, got_, names_ = call_site_ids(d)
         res.evaluations += 1
+        # one node per CALL SITE of the describing function(s): the program's own count of calls of every function
+        # (a nested DAG's calls counted once per embedding) against the nodes tawazi recorded for that function
+        def sites(q, acc):
+            for st_ in q["stmts"]:
+                if st_["op"] == "call":
+                    acc["f%d" % q["funs"][st_["f"]]["fid"]] += 1
+                elif st_["op"] == "sub":
+                    sites(q["subs"][st_["d"]], acc)
+            return acc
+        want_ = sites(prog, collections.Counter())
+        have_ = collections.Counter()
+        for nid_, xn_ in d.exec_nodes.items():
+            qn_ = getattr(getattr(xn_, "exec_function", None), "__qualname__", "")
+            if qn_ in want_ and type(xn_).__name__ not in ("ArgExecNode", "ReturnExecNode"):
+                have_[qn_] += 1
+        if dict(have_) != dict(want_):
+            bad_ = sorted(f_ for f_ in want_ if want_[f_] != have_.get(f_, 0))
+            res.hit("C03", "monitor", "the describing function calls %s at %s call site(s), the DAG has %s node(s) for it" % (bad_[0], want_[bad_[0]], have_.get(bad_[0], 0)), dict(engine="kids", prog=prog, kind="monitor"))
         # K-attrs: every recorded call of a decorated function carries the attributes the function was declared
         # with (priority, is_sequential, resource), also when it was recorded inside a nested DAG
         decl = {}
@@ -429,6 +447,26 @@ def _P(n, d):
 
 # fixed programs (run before the random ones): nested DAGs whose defaulted parameters are bound positionally
 CORPUS = [
+    # ONE nested DAG embedded at two call sites with different arguments (refused at build today: F12; if it is ever
+    # accepted, every embedding has its own nodes and its own executions)
+    dict(name="p", params=[_P("a0", None), _P("b0", None)], funs=[_fun(0), _fun(1)],
+         stmts=[dict(op="sub", d=0, args=[["param", 0]], active=None), dict(op="sub", d=0, args=[["param", 1]], active=None)],
+         ret=dict(shape="tuple", items=[["var", 0, []], ["var", 1, []]]), fails=[], maxc=2, is_async=False,
+         subs=[_sub("p_s0", [_P("a0", None)], 10, [dict(op="call", f=0, args=[["param", 0]], kwargs={}, active=None)], dict(shape="single", items=[["var", 0, []]]))]),
+    # the same function called three times with the same upstream result: three call sites, three executions
+    dict(name="p", params=[_P("a0", None)], funs=[_fun(0), _fun(1)],
+         stmts=[dict(op="call", f=0, args=[["param", 0]], kwargs={}, active=None),
+                dict(op="call", f=1, args=[["var", 0, []]], kwargs={}, active=None),
+                dict(op="call", f=1, args=[["var", 0, []]], kwargs={}, active=None),
+                dict(op="call", f=1, args=[["var", 0, []]], kwargs={}, active=None)],
+         ret=dict(shape="tuple", items=[["var", 1, []], ["var", 2, []], ["var", 3, []]]), fails=[], maxc=2, is_async=False, subs=[]),
+    # a dict result indexed with the key None; an unpacked record (indexable, not a Sequence, iterates differently)
+    dict(name="p", params=[_P("a0", None)], funs=[_fun(0, "dict", keys=[[None, True], ["k1", False]]), _fun(1), _fun(2, "unpack", truths=[True, False], rec=True)],
+         stmts=[dict(op="call", f=0, args=[["param", 0]], kwargs={}, active=None),
+                dict(op="call", f=1, args=[["var", 0, [None]]], kwargs={"kw0": ["var", 0, ["k1"]]}, active=None),
+                dict(op="call", f=2, args=[["var", 1, []]], kwargs={}, active=None),
+                dict(op="call", f=1, args=[["var", 2, [0]], ["var", 2, [1]]], kwargs={}, active=["var", 0, [None]])],
+         ret=dict(shape="tuple", items=[["var", 1, []], ["var", 2, [0]], ["var", 2, [1]], ["var", 3, []]]), fails=[], maxc=2, is_async=False, subs=[]),
     # inside a nested DAG a node takes an INDEXED / unpacked result by keyword (and the same positionally)
     dict(name="p", params=[_P("a0", None)], funs=[_fun(0), _fun(1)],
          stmts=[dict(op="sub", d=0, args=[["param", 0]], active=None)],
